@@ -63,7 +63,7 @@ CHECKS['C01'] = dict(
 CHECKS['C02'] = dict(
     level='model_checking', engine='SCHED',
     technique='stateless deviation-bounded schedule exploration + lazily decided adversarial command; fixed-point oracle re-deriving every proposal on the final input',
-    text='Hierarchical and hybrid runs (-j 1/2/3, six mutator sets, 15 input/command families incl. scenarios where a late cosmetic rename enables a main mutator, where only a joint global removal is acceptable, and where a substitution puts one object at two positions) are explored up to 1 schedule deviation (thorough 2) with pruning of revisited control states; on micro inputs the command is adversarial and lazily decided with accept budget 2, i.e. every deterministic command that accepts at most 2 of the candidates it is shown. At normal termination the output file is read back and every proposal of every enabled mutator (taken from the registry and option flags, driven by the harness\'s own loop, not by ddSMT\'s pass list or Producer) at every node is rendered as the command would see it and must be rejected (concrete command) or must have been put to the command and rejected (adversarial). Default-schedule runs are additionally re-run with --strategy hierarchical on their own output and must report "unable to minimize". 58 k executions, 850 k proposals re-checked quick.',
+    text='Hierarchical and hybrid runs (-j 1/2/3, six mutator sets, 16 input/command families incl. scenarios where a late cosmetic rename enables a main mutator, where the symbol tables are rebuilt while a task generator may still be running (a generator step under way across the rebuild is a schedule option, and one deviation buys a scheduling policy for all such windows), where only a joint global removal is acceptable, and where a substitution puts one object at two positions) are explored up to 1 schedule deviation (thorough 2) with pruning of revisited control states; on micro inputs the command is adversarial and lazily decided with accept budget 2, i.e. every deterministic command that accepts at most 2 of the candidates it is shown. At normal termination the output file is read back and every proposal of every enabled mutator (taken from the registry and option flags, driven by the harness\'s own loop, not by ddSMT\'s pass list or Producer) at every node is rendered as the command would see it and must be rejected (concrete command) or must have been put to the command and rejected (adversarial). Default-schedule runs are additionally re-run with --strategy hierarchical on their own output and must report "unable to minimize". 58 k executions, 850 k proposals re-checked quick.',
     note=SCHED_NOTE, design='3/C02')
 CHECKS['C05'] = dict(
     level='model_checking', engine='SCHED',
@@ -78,7 +78,7 @@ CHECKS['C13'].update(
 CHECKS['C18'] = dict(
     level='model_checking', engine='SCHED',
     technique='exhaustive exploration of all one-worker-pool schedules up to a deviation budget x PYTHONHASHSEED values (one interpreter each); differential oracle across all executions',
-    text='30 scenarios with -j 1 (10 inputs incl. ones where fresh variables and set-like lookups matter x 3 strategies) are run under the virtual one-worker pool for every schedule with up to 1 deviation (thorough 2: producer run-ahead, late main loop, every k) in 8 (16) separate interpreters with PYTHONHASHSEED 0..7; the sequence of accepted token sequences and the output bytes must be identical over all executions of a scenario. REAL tier: 16 runs of bin/ddsmt -j 1 with a real command that delays its k-th invocation, under two hash seeds, must give byte-identical outputs.',
+    text='Scenarios with -j 1 (26 input/command families incl. ones where fresh variables, set-like lookups and competing rewrites matter, and a job built around the window in which the symbol tables are rebuilt, x 3 strategies) are run under the virtual one-worker pool for every schedule with up to 1 deviation (thorough 2: producer run-ahead, late main loop, every k) in 8 (16) separate interpreters with PYTHONHASHSEED 0..7; the sequence of accepted token sequences and the output bytes must be identical over all executions of a scenario. REAL tier: 16 runs of bin/ddsmt -j 1 with a real command that delays its k-th invocation, under two hash seeds, must give byte-identical outputs.',
     note=SCHED_NOTE + ' Process ids are irrelevant to the observations (only file contents are compared).', design='3/C18')
 
 GRAPH_NOTE = ('Trusted: the argument of DESIGN 2.8 that every sequence of accepted inputs of any run (any deterministic command, strategy, schedule) is a path of the explored rewrite graph; the seed family ddv/seeds.py (generated depth-1 formulas per theory, occurs-check equalities, hand-written command-level scripts, one script per operator of the typed generator); the harness serialisation as state key. Coverage is exhaustive within the stated depth / state caps from these seeds, not beyond (caps are reported in the evidence).')
